@@ -161,6 +161,12 @@ def create_header(
         # TODO: This behaviour does not match the docstring.
         reuse_info = existing_spdx | reuse_info
         reuse_info = reuse_info.copy(copyright_lines=spdx_copyrights)
+    elif merge_copyrights:
+        # There is nothing to merge with, but the given lines may well name
+        # the same holder more than once.
+        reuse_info = reuse_info.copy(
+            copyright_lines=merge_copyright_lines(reuse_info.copyright_lines)
+        )
 
     new_header += _create_new_header(
         reuse_info,
